@@ -6,8 +6,8 @@ patch="$1"; prop="$2"; tier="${3:-quick}"
 d=$(mktemp -d /tmp/verif_mut_XXXXXX)
 git -C /repo archive HEAD src | tar -x -C "$d" || exit 2
 ( cd "$d" && patch -p1 -s < "$patch" ) || { echo "patch does not apply"; rm -rf "$d"; exit 2; }
-cd /verif && VERIF_REPO_SRC="$d/src" VERIF_EVIDENCE_DIR="$d/evidence" VERIF_REPLAY_DIR="$d/replays" ./run_check.sh "$prop" "$tier" > /tmp/mutant_$prop.log 2>&1
+cd /verif && VERIF_REPO_SRC="$d/src" VERIF_EVIDENCE_DIR="$d/evidence" VERIF_REPLAY_DIR="$d/replays" ./run_check.sh "$prop" "$tier" > /tmp/mutant_${prop}_$(basename $patch .patch).log 2>&1
 rc=$?
 rm -rf "$d"
-echo "mutant $(basename $patch) on $prop -> exit $rc; $(grep -c '^VIOLATION' /tmp/mutant_$prop.log) violation lines; $(grep 'clause=' /tmp/mutant_$prop.log | head -1 | cut -c1-160)"
+echo "mutant $(basename $patch) on $prop -> exit $rc; $(grep -c '^VIOLATION' /tmp/mutant_${prop}_$(basename $patch .patch).log) violation lines; $(grep 'clause=' /tmp/mutant_${prop}_$(basename $patch .patch).log | head -1 | cut -c1-160)"
 exit 0
